@@ -1,7 +1,7 @@
 """Obligations for C11."""
 from oblib import ob
 
-BOUNDS = {'quick': 'Inside: AppendQuote on every byte string of length 1-3 for the 8 EscapeForHTML x EscapeForJS x AllowInvalidUTF8 settings (minimal literal, error iff disallowed invalid UTF-8, unquote round trip); ConsumeString/AppendUnquote/UnquoteMayCopy on every byte string of length 2-4 with and without UTF-8 validation, and on the skeletons "\\u????", "\\uD???\\uD???", "\\u????\\u??, "??\\u00??" (accept / truncated / invalid class, meaning, verbatim and canonical flag soundness); ReformatString on every byte string of length 3-4 for 6 option sets; the NeedEscape lemma (not NeedEscape(s) implies quoting s under every escape option is \'"\'+s+\'"\') on every byte string of length 1-3. Outside: longer strings.', 'thorough': 'As quick with lengths up to 4 (quote, NeedEscape), 5 (scan, reformat) and more skeletons with up to 8 symbolic bytes.'}
+BOUNDS = {'quick': 'Inside: AppendQuote on every byte string of length 1-3 for the 8 EscapeForHTML x EscapeForJS x AllowInvalidUTF8 settings (minimal literal, error iff disallowed invalid UTF-8, unquote round trip); ConsumeString/AppendUnquote/UnquoteMayCopy on every byte string of length 2-4 with and without UTF-8 validation, and on the skeletons "\\u????", "\\uD???\\uD???", "\\u????\\u??, "??\\u00??" (accept / truncated / invalid class, meaning, verbatim and canonical flag soundness); ReformatString on every byte string of length 3-4 for 6 option sets; the NeedEscape lemma (not NeedEscape(s) implies quoting s under every escape option is \'"\'+s+\'"\') on every byte string of length 1-3; Marshal paths: a string of 2 symbolic bytes (3 under EscapeForJS) reaching the output as string value, map key+value, struct member name (concrete, holding < > & U+2028 U+2029), raw jsontext.Value field, MarshalJSON output, MarshalText, AppendText, MarshalJSONTo token and raw value, string in any, text-marshaler map key, under 4 settings of EscapeForHTML/EscapeForJS/PreserveRawStrings: no raw < > & / U+2028 U+2029 in the output and every output literal decodes to the expected text. Outside: longer strings.', 'thorough': 'As quick with lengths up to 4 (quote, NeedEscape), 5 (scan, reformat) and more skeletons with up to 8 symbolic bytes; Marshal paths with strings of 1-4 bytes.'}
 ASSUMPTIONS = []
 
 
@@ -28,4 +28,13 @@ def obligations(tier):
             L.append(ob("reformat/n=%d/html=%d/js=%d/allow=%d/preserve=%d" % (n, h, j, a, p), "internal/jsonwire", "VerifC11Reformat", [n, bool(h), bool(j), bool(a), bool(p)]))
     for n in ([1, 2, 3] if q else [1, 2, 3, 4]):
         L.append(ob("needescape/n=%d" % n, "internal/jsonwire", "VerifC11NeedEscape", [n], covers=["verbatim", "needs-escape"]))
+    # every path by which a string reaches Marshal's output, under the escape options
+    for path in range(11):
+        for h, j, p in ((1, 1, 0), (1, 0, 1), (0, 1, 1), (0, 0, 0)):
+            for n in ((2, 3) if q else (1, 2, 3, 4)):
+                if n >= 3 and not j:
+                    continue  # 3+ byte strings matter for U+2028/U+2029 only
+                if n == 4 and path in (1, 10):
+                    continue
+                L.append(ob("paths/p=%d/n=%d/html=%d/js=%d/preserve=%d" % (path, n, h, j, p), ".", "VerifC11Paths", [path, n, bool(h), bool(j), bool(p)], covers=["checked"]))
     return L
